@@ -187,17 +187,14 @@ Proof.
   destruct (usize =? 0); [reflexivity|]. apply blk_transparent. exact Hok.
 Qed.
 
-(* ---- records that the loop runs through, whatever follows them *)
-Inductive rsteps : rstate -> list (list N) -> rstate -> Prop :=
-| rsteps_nil st : rsteps st [] st
+(* ---- records that the loop runs through when [rest] follows them *)
+Inductive rsteps (rest : list N) : rstate -> list (list N) -> rstate -> Prop :=
+| rsteps_nil st : rsteps rest st [] st
 | rsteps_cons st id body st1 rs st2 :
     id <> 34 ->
-    (forall rest, h_record st id (mkS (body ++ rest) None) = H_cont st1 (mkS rest None)) ->
-    rsteps st1 rs st2 ->
-    rsteps st ((id :: body) :: rs) st2.
-
-Lemma rsteps_app st r1 st1 r2 st2 : rsteps st r1 st1 -> rsteps st1 r2 st2 -> rsteps st (r1 ++ r2) st2.
-Proof. induction 1; intros H2; [exact H2|]. cbn [app]. econstructor; eauto. Qed.
+    h_record st id (mkS (body ++ concat rs ++ rest) None) = H_cont st1 (mkS (concat rs ++ rest) None) ->
+    rsteps rest st1 rs st2 ->
+    rsteps rest st ((id :: body) :: rs) st2.
 
 (* the bytes fit into what is left of the block *)
 Definition fits (ob : option blk) (k : N) : Prop :=
@@ -240,12 +237,12 @@ Proof.
   replace (b_off b <? b_size b) with true by (symmetry; apply N.ltb_lt; exact H). destruct b; reflexivity.
 Qed.
 
-Lemma rsteps_loop inflate st rs st' : rsteps st rs st' -> forall n f rest ob,
+Lemma rsteps_loop inflate rest st rs st' : rsteps rest st rs st' -> forall n f ob,
   blk_wf ob -> fits ob (N.of_nat (length (concat rs))) ->
   r_loop_c inflate n (length rs + f) st (mkS (concat rs ++ rest) None) ob =
   r_loop_c inflate n f st' (mkS rest None) (adv_s ob (N.of_nat (length (concat rs)))).
 Proof.
-  induction 1 as [st|st id body st1 rs st2 Hid Hrec Hs IH]; intros n f rest ob Hwf Hfit.
+  induction 1 as [st|st id body st1 rs st2 Hid Hrec Hs IH]; intros n f ob Hwf Hfit.
   - cbn [concat length Nat.add app]. rewrite adv_s_0 by exact Hwf. reflexivity.
   - cbn [concat length Nat.add]. rewrite <- app_assoc. cbn [app]. rewrite r_loop_c_S.
     unfold step_c. cbn [rd1 s_bs s_err].
@@ -261,18 +258,19 @@ Proof.
       destruct ob as [b|]; cbn [fits] in *; [lia|exact I].
 Qed.
 
-Lemma rsteps_length st rs st' : rsteps st rs st' -> (length rs <= length (concat rs))%nat.
+Lemma rsteps_length rest st rs st' : rsteps rest st rs st' -> (length rs <= length (concat rs))%nat.
 Proof. induction 1; cbn [concat length]; [lia|]. rewrite app_length. cbn [length]. lia. Qed.
 
 (* ---- the file-level form.  [start_of hdr u]: hdr = magic, START record with unit u (and, if any, the offset table);
-   [rsteps (q_init u) pre st]: the records before the CBLOCK, whatever follows them *)
+   [rsteps rest (q_init u) pre st]: the records before the CBLOCK when [rest] follows them *)
 Definition start_of (hdr : list N) (u : real) : Prop :=
   forall inflate rest,
     read_oas_model_c inflate (hdr ++ rest) =
     r_loop_c inflate (S (length (hdr ++ rest))) (S (S (length rest))) (q_init u) (mkS rest None) None.
 
 Theorem cblock_splice_file_lemma : forall inflate hdr u pre st usize z x post r1 r2,
-  start_of hdr u -> rsteps (q_init u) pre st ->
+  start_of hdr u ->
+  rsteps (cblock_rec usize z ++ post) (q_init u) pre st -> rsteps (x ++ post) (q_init u) pre st ->
   usize < two32 -> N.of_nat (length z) < two32 ->
   inflate z usize = Some x -> N.of_nat (length x) = usize ->
   blk_ok (S (S (length (x ++ post)))) st (mkS (x ++ post) None) (mkB 0 usize) = true ->
@@ -280,8 +278,8 @@ Theorem cblock_splice_file_lemma : forall inflate hdr u pre st usize z x post r1
   read_oas_model_c inflate (hdr ++ concat pre ++ x ++ post) = r2 ->
   r1 <> CR Hang -> r2 <> CR Hang -> r1 = r2.
 Proof.
-  intros inflate hdr u pre st usize z x post r1 r2 Hst Hpre HU HC Hi Hx Hok H1 H2 N1 N2.
-  pose proof (rsteps_length _ _ _ Hpre) as Hlen.
+  intros inflate hdr u pre st usize z x post r1 r2 Hst Hpre Hpre2 HU HC Hi Hx Hok H1 H2 N1 N2.
+  pose proof (rsteps_length _ _ _ _ Hpre) as Hlen.
   rewrite Hst in H1, H2.
   (* the prefix *)
   set (n1 := S (length (hdr ++ concat pre ++ cblock_rec usize z ++ post))) in *.
@@ -289,11 +287,11 @@ Proof.
   assert (E1 : exists f1, S (S (length (concat pre ++ cblock_rec usize z ++ post))) = (length pre + S f1)%nat).
   { exists (S (length (concat pre ++ cblock_rec usize z ++ post)) - length pre)%nat. rewrite app_length. lia. }
   destruct E1 as (f1 & E1). rewrite E1 in H1.
-  rewrite (rsteps_loop inflate _ _ _ Hpre n1 (S f1) _ None I I) in H1. cbn [adv_s] in H1.
+  rewrite (rsteps_loop inflate _ _ _ _ Hpre n1 (S f1) None I I) in H1. cbn [adv_s] in H1.
   assert (E2 : exists f2, S (S (length (concat pre ++ x ++ post))) = (length pre + f2)%nat /\ (S (S (length (x ++ post))) <= f2)%nat).
   { exists (S (S (length (concat pre ++ x ++ post))) - length pre)%nat. rewrite !app_length. split; lia. }
   destruct E2 as (f2 & E2 & Hf2). rewrite E2 in H2.
-  rewrite (rsteps_loop inflate _ _ _ Hpre n2 f2 _ None I I) in H2. cbn [adv_s] in H2.
+  rewrite (rsteps_loop inflate _ _ _ _ Hpre2 n2 f2 None I I) in H2. cbn [adv_s] in H2.
   (* the block *)
   subst n1. rewrite (cblock_splice_lemma inflate _ f1 st usize z x post HU HC Hi Hx Hok) in H1.
   (* same configuration, two fuels *)
@@ -408,12 +406,12 @@ Proof. apply (start_of_intro (RInt false 1) [0; 1]). intros rest. reflexivity. Q
 
 Definition ex_st : rstate :=
   match h_record (q_init (RInt false 1)) 14 (mkS [1; 65] None) with H_cont st _ => st | _ => q_init (RInt false 1) end.
-Lemma ex_pre : rsteps (q_init (RInt false 1)) ex_cell ex_st.
+Lemma ex_pre rest : rsteps rest (q_init (RInt false 1)) ex_cell ex_st.
 Proof.
   unfold ex_cell. eapply rsteps_cons; [discriminate| |apply rsteps_nil].
-  intros rest. cbn [h_record]. unfold f_nref. change (14 =? 13) with false. cbv iota. unfold rbind.
-  rewrite (s_string_ok true ([1; 65] ++ rest) [65] rest)
-    by (change ([1; 65] ++ rest) with (wr_string [65] ++ rest); apply rd_string_enc; unfold wf_str, two64; cbn; lia).
+  cbn [concat app h_record]. unfold f_nref. change (14 =? 13) with false. cbv iota. unfold rbind.
+  rewrite (s_string_ok true (1 :: 65 :: rest) [65] rest)
+    by (change (1 :: 65 :: rest) with (wr_string [65] ++ rest); apply rd_string_enc; unfold wf_str, two64; cbn; lia).
   unfold rret. reflexivity.
 Qed.
 
@@ -448,7 +446,8 @@ Example cblock_splice_file_example : forall r1 r2,
 Proof.
   intros r1 r2. apply (cblock_splice_file_lemma toy_inflate ex_hdr (RInt false 1) ex_cell ex_st 8 (rev ex_rect) ex_rect end_record).
   - exact ex_start.
-  - exact ex_pre.
+  - apply ex_pre.
+  - apply ex_pre.
   - reflexivity.
   - reflexivity.
   - reflexivity.
